@@ -58,6 +58,14 @@ func InspectSymbolContent(name string) string {
 			break
 		}
 		char, bytes := utf8.DecodeRuneInString(str)
+		if char == utf8.RuneError && bytes == 1 {
+			// invalid UTF-8, write the raw byte
+			fmt.Fprintf(&result, `\x%02x`, str[0])
+			str = str[bytes:]
+			quotes = true
+			firstLetter = false
+			continue
+		}
 		str = str[bytes:]
 		switch char {
 		case '\\':
@@ -86,6 +94,12 @@ func InspectSymbolContent(name string) string {
 			quotes = true
 		case '"':
 			result.WriteString(`\"`)
+			quotes = true
+		case '$':
+			result.WriteString(`\$`)
+			quotes = true
+		case '#':
+			result.WriteString(`\#`)
 			quotes = true
 		case '_':
 			result.WriteByte('_')
